@@ -563,6 +563,10 @@ pub fn short_err(r: &Result<Obs, String>) -> String {
 pub fn run_history<KK: KeyKind>(ctx: &mut Ctx, h: &History, opts: &RunOpts) -> HistStats {
     let ktn = KK::name();
     let replay = || json!({"kind": "history", "kt": KK::KT.name(), "faulty": KK::FAULTY, "history": serde_json::to_value(h).unwrap()});
+    if cfg!(miri) && ctx.expired() {
+        ctx.count("deadline-skips");
+        return HistStats { steps_run: 0, ok_steps: 0, err_steps: 0, panicked: false, sign_calls_own: 0, sign_calls_other: 0, states: Vec::new() };
+    }
     ctx.trace_case(&replay);
     ctx.count("histories");
     let own_ref = RefKey::new(h.scheme, secret_from(h.scheme, h.own));
@@ -680,6 +684,10 @@ pub fn run_history<KK: KeyKind>(ctx: &mut Ctx, h: &History, opts: &RunOpts) -> H
 
     // ------------------------------------------------------------------ steps
     for (i, step) in h.steps.iter().enumerate() {
+        if cfg!(miri) && ctx.expired() {
+            ctx.count("deadline-skips");
+            break;
+        }
         let (signer_k, nonsigner_k, ms_s, ms_n) = match step.signer {
             Signer::Own => (&own_k, &other_k, &ms_own, &ms_other),
             Signer::Other => (&other_k, &own_k, &ms_other, &ms_own),
